@@ -4,6 +4,7 @@ import WebpVerif.Spec.Lossless
 import WebpVerif.Lemmas.BitWriter
 import WebpVerif.Lemmas.BitReader
 import WebpVerif.Lemmas.EncLoop
+import WebpVerif.Lemmas.EncMain
 
 /-!
 # C04 — the lossless encoder round-trips every image exactly
@@ -191,5 +192,51 @@ theorem pixel_loop_decodes_tokens (f : List Nat → Nat) (px : List (List Nat)) 
 example : LLoop.decode (EncLoop.cfgEnc 3 2) (Array.replicate 6 77)
     (EncLoop.opsOf ((tokenize [[1], [1], [1], [1], [2], [3]] 6).map fun t => (t.1.getD 0 0, t.2))) = .ok #[1, 1, 1, 1, 2, 3] := by
   decide +kernel
+
+
+/-! ### bit level, whole frame: the specification decoder inverts the encoder -/
+
+/-- **Round trip of every image through the specification decoder** (the headline statement of the
+    property, at the level of bytes).  For every width and height in 1..16384, each of the four
+    colour types (0 = L8, 1 = La8, 2 = Rgb8, 3 = Rgba8), with or without the predictor transform,
+    and every input of `w·h·bytes_per_pixel` bytes: the model of `encode_frame` (byte-exact tie to
+    the real function on every run) succeeds, and `VP8LP.decode` - the WebP lossless specification
+    as a total function on byte strings (tied on every run to the executable specification
+    `VP8L.decode`, to libwebp and to this crate's decoder) - applied to the bytes it produces
+    returns exactly the same dimensions and the input pixels (grey expanded to RGB, missing alpha
+    255), as ARGB values.  No hypothesis on the pixel values, sizes or histograms: the proof goes
+    through the header, the transform section with the predictor's sub-image, the five prefix
+    codes as `write_huffman_tree` serialises them (C14's theorem for every histogram, the
+    code-length code, `max_symbol`), the packed multi-code writes of the 64-bit `BitWriter`, the
+    LZ77 run tokens, and the inverse predictor and subtract-green transforms. -/
+theorem encode_roundtrip (data : List Nat) (w h color : Nat) (pred : Bool)
+    (hw : 1 ≤ w ∧ w ≤ 16384) (hh : 1 ≤ h ∧ h ≤ 16384) (hc : color ≤ 3) (hd : ∀ b ∈ data, b < 256)
+    (hlen : data.length = w * h * EncRT.bytesPer color) :
+    ∃ out, encodeFrame data w h color pred = some out ∧
+      VP8LP.decode out.toList = some (w, h, (expand color data).map EncRT.pack) :=
+  EncRT.encode_decodes data w h color pred hw.1 hw.2 hh.1 hh.2 hc hd hlen
+
+/-- the pixel value the theorem speaks of is the ARGB number of the specification -/
+theorem pack_is_argb (r g b a : Nat) : EncRT.pack [r, g, b, a] = VP8L.mk a r g b := rfl
+
+/-- the decoder the driver executes (`VP8LP.decodeFast`, canonical code words tabulated once per
+    code) is the specification `VP8LP.decode` -/
+theorem decodeFast_is_decode : VP8LP.decodeFast = VP8LP.decode := by
+  have e : VP8LP.tableDec = VP8LP.specDec := by
+    funext lengths bits
+    unfold VP8LP.tableDec VP8LP.specDec Prefix.decodeSymbol
+    by_cases h1 : (lengths.filter (· ≠ 0)).length = 1
+    · simp only [h1, if_true]
+    · simp only [h1, if_false]
+      exact Prefix.decodeSymT_eq lengths 15 0 0 bits
+  funext bytes
+  unfold VP8LP.decodeFast VP8LP.decode
+  rw [e]
+
+-- non-vacuity: the hypotheses are met by a concrete 2x2 Rgba8 image (and by every other image)
+example : ∃ out, encodeFrame [10, 20, 30, 255, 10, 20, 30, 255, 10, 20, 30, 255, 40, 50, 60, 70] 2 2 3 true = some out ∧
+    VP8LP.decode out.toList =
+      some (2, 2, [VP8L.mk 255 10 20 30, VP8L.mk 255 10 20 30, VP8L.mk 255 10 20 30, VP8L.mk 70 40 50 60]) :=
+  encode_roundtrip _ 2 2 3 true (by decide) (by decide) (by decide) (by decide) (by decide)
 
 end C04
